@@ -12,7 +12,8 @@
 (*    (, seg)]                                                             *)
 (*   [k |-> "imm", s, v]        [k |-> "rel", v]                           *)
 (* A machine state is [W, regs, fl, x, mem, base]: W = 32 | 64, regs maps  *)
-(* the full registers to W-bit values, fl the five modelled flags to 0/1,  *)
+(* the full registers to W-bit values, fl the five modelled flags (and the  *)
+(* input-only PF) to 0/1,                                                  *)
 (* x the XMM registers to 128-bit values, mem is the data window (a        *)
 (* sequence of bytes at address base).  Limbs are bytes (LimbBits = 8), so *)
 (* memory images and lane operations are plain sequence manipulation.      *)
@@ -130,10 +131,12 @@ SubFl(fl, w, a, b, bin) == LET r == SubRes(w, a, b, bin) IN
   [fl EXCEPT !.CF = SubCF(w, a, b, bin), !.OF = SubOF(w, a, b, r), !.ZF = B01(IsZero(r)), !.SF = Msb(w, r)]
 LogicFl(fl, w, r) == [fl EXCEPT !.CF = 0, !.OF = 0, !.ZF = B01(IsZero(r)), !.SF = Msb(w, r)]
 
-\* condition codes; "p"/"np" need PF, which the IL state does not have
-CondKnown(cc) == cc \notin {"p", "np"}
+\* condition codes.  PF is an input of the state only (set by the harness in the IL state and in
+\* RFLAGS): no lifted instruction writes it and it is never compared afterwards.
+CondKnown(cc) == TRUE
 Cond(fl, cc) ==
-  CASE cc = "o"  -> fl.OF = 1            [] cc = "no" -> fl.OF = 0
+  CASE cc = "p"  -> fl.PF = 1            [] cc = "np" -> fl.PF = 0
+    [] cc = "o"  -> fl.OF = 1            [] cc = "no" -> fl.OF = 0
     [] cc = "b"  -> fl.CF = 1            [] cc = "ae" -> fl.CF = 0
     [] cc = "e"  -> fl.ZF = 1            [] cc = "ne" -> fl.ZF = 0
     [] cc = "be" -> fl.CF = 1 \/ fl.ZF = 1
